@@ -403,17 +403,23 @@ def retime(index, rep):
     rets2 = [r for r in c2r.body if isinstance(r, ast.Return) and isinstance(r.value, ast.Tuple) and len(r.value.elts) >= 2
              and not all(isinstance(e_, ast.Constant) for e_ in r.value.elts)]
     tcn = norm_src(rets2[-1].value.elts[1]) if rets2 else None
+    from .core import find_call
     hits = []
-    for t_, v_ in inl2.stores:
-        if inl2.src(v_).startswith("self.get_second_round_kcals_with_redistributed_meat("):
-            base = t_.value if isinstance(t_, ast.Attribute) else t_
-            hits.append((norm_src(t_), inl2.src(base)))
-    okh = tcn is not None and any(b_ == f"{tcn}['each_month_meat_slaughtered']" for _, b_ in hits)
-    if not okh and tcn is not None:
-        # ... or into a copy that is afterwards put there
-        for tgt_txt, b_ in hits:
-            holder = tgt_txt.rsplit(".", 1)[0]
-            okh = okh or any(norm_src(t2) == f"{tcn}['each_month_meat_slaughtered']" and norm_src(v2) == holder for t2, v2 in inl2.stores)
+    fc = find_call(index.methods(PARAMS, "Parameters"), c2r, "get_second_round_kcals_with_redistributed_meat")   # here or one helper level down
+    okh = False
+    if fc is not None and tcn is not None:
+        host, call_, view = fc
+        host_inl = Inliner(host)
+        for t_, v_ in host_inl.stores:
+            if any(n_ is call_ for n_ in ast.walk(v_)) and isinstance(t_, ast.Attribute):
+                base_txt = view.src(t_.value)
+                hits.append((norm_src(t_), base_txt))
+                if base_txt == f"{tcn}['each_month_meat_slaughtered']":
+                    okh = True
+                else:
+                    # ... or into a copy that is afterwards put there
+                    holder = norm_src(t_.value)
+                    okh = okh or any(view.src(t2) == f"{tcn}['each_month_meat_slaughtered']" and norm_src(v2) == holder for t2, v2 in host_inl.stores)
     rep.check(okh, rule, "retimed series stored into round 2's monthly constants",
               "the re-timed meat series is not what compute_parameters_second_round hands to round 2 (it is computed into "
               f"{[h[0] for h in hits] or 'nothing'}, which is not the returned monthly constants' each_month_meat_slaughtered): the month-by-month floor at "
